@@ -201,3 +201,20 @@ func CompressFlushed(codec string, parts [][]byte) (comp []byte, cuts []int, err
 	}
 	return b.Bytes(), cuts, nil
 }
+
+// CompressMembers compresses each part on its own and concatenates the results: a multi-member gzip
+// file (what `cat a.gz b.gz`, bgzip or an appending writer produce), and the analogous multi-stream /
+// multi-frame files of the other codecs. starts = offset of every member but the first.
+func CompressMembers(codec string, parts [][]byte) (out []byte, starts []int, err error) {
+	for i, p := range parts {
+		c, e := Compress(codec, p)
+		if e != nil {
+			return nil, nil, e
+		}
+		if i > 0 {
+			starts = append(starts, len(out))
+		}
+		out = append(out, c...)
+	}
+	return out, starts, nil
+}
